@@ -134,7 +134,7 @@ def model_check(spec_dir, module, cfg, workers=4, timeout=900, xmx="8g"):
     return {"module": module, "cfg": cfg, "states": dist, "transitions": gen, "wall_s": round(wall, 1), "tagged": tagged}
 
 
-def generate(spec_dir, module, cfg, out_path, tagname="WITNESS", workers=1, timeout=900, force=False, deps=()):
+def generate(spec_dir, module, cfg, out_path, tagname="WITNESS", workers=1, timeout=900, force=False, deps=(), env=None):
     """R2 generator: run TLC with a generator config; collect PrintT("WITNESS", json) lines into an ndjson file.
     Cached: regenerated only when one of the spec files is newer than the output."""
     srcs = [os.path.join(ROOT, spec_dir, f) for f in os.listdir(os.path.join(ROOT, spec_dir)) if f.endswith((".tla", ".cfg"))]
@@ -142,7 +142,7 @@ def generate(spec_dir, module, cfg, out_path, tagname="WITNESS", workers=1, time
     if not force and os.path.exists(out_path) and all(os.path.getmtime(s) <= os.path.getmtime(out_path) for s in srcs):
         n = sum(1 for _ in open(out_path))
         return {"cached": True, "n": n, "states": 0, "transitions": 0}
-    rc, out, wall = tlc(spec_dir, module, cfg, workers=workers, timeout=timeout)
+    rc, out, wall = tlc(spec_dir, module, cfg, workers=workers, timeout=timeout, env=env)
     tagged, gen, dist = parse_tlc_output(out)
     if "Model checking completed. No error has been found." not in out and "Finished in" not in out:
         log(brief(out))
@@ -458,4 +458,51 @@ def run_contained(driver, cases_path, out_path, extra=(), case_timeout=20, mem_m
         start = k + 1
         if len(crashes) > 200:
             raise ToolError("more than 200 worker crashes in one run - giving up")
+    return crashes
+
+
+def run_contained_indexed(driver, out_path, extra=(), case_timeout=10, mem_mb=2048, overall_timeout=3000):
+    """Like run_contained, for drivers that enumerate their cases themselves (deterministically): after a case that kills
+    the worker the case is fetched with --dump-case, recorded as a `crash` event and the driver restarted behind it."""
+    start = 0
+    crashes = []
+    t0 = time.time()
+    progress = out_path + ".progress"
+    if os.path.exists(out_path):
+        os.remove(out_path)
+    base = [BIN, driver] + [str(x) for x in extra]
+    env = dict(os.environ, VERIF_REPO=REPO, RUST_BACKTRACE="0")
+    while True:
+        if time.time() - t0 > overall_timeout:
+            raise ToolError(f"driver {driver} exceeded the overall time limit")
+        p = subprocess.run(base + ["--out", out_path, "--start", str(start), "--progress", progress, "--case-timeout", str(case_timeout), "--mem-mb", str(mem_mb)],
+                           cwd=ROOT, stdout=subprocess.DEVNULL, stderr=subprocess.PIPE, text=True, errors="replace", env=env, timeout=overall_timeout)
+        if p.returncode == 0:
+            for l in p.stderr.splitlines()[-2:]:
+                log("[drive] " + l)
+            break
+        try:
+            k, what = open(progress).read().split()[:2]
+            k = int(k)
+        except Exception:
+            log(p.stderr[-3000:])
+            raise ToolError(f"driver {driver} died without a progress record (exit {p.returncode})")
+        if what == "done":
+            break
+        kind = "timeout" if what == "timeout" else "abort"
+        msg = "timeout" if kind == "timeout" else classify_stderr(p.stderr)
+        d = subprocess.run(base + ["--dump-case", str(k)], cwd=ROOT, stdout=subprocess.PIPE, stderr=subprocess.DEVNULL, text=True, env=env)
+        try:
+            c = json.loads(d.stdout.strip().splitlines()[-1])
+        except Exception:
+            c = {}
+        rec = {"ev": "crash", "case": str(k), "emu": c.get("ext", "?"), "seed": c.get("seed", "?"), "mut": c.get("mut", "?"), "kind": kind, "msg": msg, "sig": p.returncode,
+               "n": len(c.get("bytes", [])), "detail": p.stderr[-400:].replace("\n", " | ")}
+        with open(out_path, "a") as f:
+            f.write(json.dumps(rec, separators=(",", ":")) + "\n")
+        crashes.append(dict(rec, input=c))
+        log(f"[drive] case {k} ({c.get('ext')}/{c.get('seed')}/{c.get('mut')}) killed the worker: {kind}/{msg}")
+        start = k + 1
+        if len(crashes) > 100:
+            raise ToolError("more than 100 worker crashes in one run - giving up")
     return crashes
